@@ -127,7 +127,7 @@ class Sync(Base):
 
 
 class Pdo(Base):
-    EVENTS = [("start", 0.1), ("start", 0.5), ("start", 0.1004), ("start", None), ("stop",), ("set", 0), ("set", 7), ("update",),
+    EVENTS = [("start", 0.1), ("start", 0.5), ("start", 0.1004), ("start", None), ("start", 0), ("stop",), ("set", 0), ("set", 7), ("update",),
               ("remap", 1), ("remap", 2)]
 
     def __init__(self):
@@ -156,6 +156,8 @@ class Pdo(Base):
                 self.running = False          # start() stops a running transmission before it validates the period
                 if p:
                     return [("C17:pdo:start-refused", "started", "ValueError")]
+                if self.map.period in (self.period, 0, None):
+                    self.period = self.map.period or None       # a refused period may be remembered (as "none") or not
                 return []
             if not p:
                 return [("C17:pdo:start-without-period", "ValueError", "started")]
